@@ -363,6 +363,18 @@ def assign_refs(rng, c, fault):
             else:
                 t = rng.choice(pool)
                 idv, tl = t["id"], t["layer"]
+                if want_fault and exp_id and rng.random() < 0.35:
+                    # an id which the referring layer itself gives to an object of a foreign kind while a sibling layer of
+                    # the same container uses it for an object of the expected kind: the reference names the own object
+                    # (innermost fragment first), which is of the wrong kind -- it must not fall through to the sibling's
+                    sib_right = {o["id"] for S in c.layers if S["cont"] == c.layers[A]["cont"] and S["i"] != A
+                                 for o in layer_ids(c, S["i"]).values() if o["kind"] in exp_id and o["kind"] in sane}
+                    wrong = [o for o in layer_ids(c, A).values() if o["kind"] not in exp_id and o["id"] in sib_right]
+                    if wrong:
+                        t = rng.choice(wrong)
+                        if spec_idref(c, A, t["id"], None, exp_id) == ("err", "type"):
+                            chosen = dict(mode="id", id=t["id"], doc=None, expected=exp_id, sane=sane)
+                            break
                 if want_fault:
                     # ids which a sibling layer of the same container imports must stay invisible here
                     leak = [o for S in c.layers if S["cont"] == c.layers[A]["cont"] and S["i"] != A for imp in S["imports"]
@@ -842,6 +854,72 @@ def shared_rows_probe(ck):
                         return
 
 
+def protocol_snref_probe(ck):
+    """oracle only (PROTOCOL-SNREFs are not generated): the PROTOCOL-SNREFs of a diagnostic communication resolve in
+    the context of its layer, i.e. to the protocol layers the layer inherits from (directly or through its parents) --
+    the protocol object of that name reached through the PARENT-REFs, or a strict-mode error if the layer does not
+    inherit from a protocol of that name, whatever other containers of the database define"""
+    import itertools
+    xsi = 'xmlns:xsi="http://www.w3.org/2001/XMLSchema-instance"'
+
+    def proto(cont, name):
+        return (f'<PROTOCOL ID="{cont}.{name}"><SHORT-NAME>{name}</SHORT-NAME>{hc.PROTOCOL_EXTRA}</PROTOCOL>')
+
+    def svc(lid, refs):
+        sn = "".join(f'<PROTOCOL-SNREF SHORT-NAME="{r}"/>' for r in refs)
+        return (f'<DIAG-COMMS><DIAG-SERVICE ID="{lid}.svc"><SHORT-NAME>svc</SHORT-NAME>'
+                + (f'<PROTOCOL-SNREFS>{sn}</PROTOCOL-SNREFS>' if sn else "") +
+                f'<REQUEST-REF ID-REF="{lid}.rq"/></DIAG-SERVICE></DIAG-COMMS><REQUESTS><REQUEST ID="{lid}.rq"><SHORT-NAME>rq</SHORT-NAME>'
+                '<PARAMS><PARAM xsi:type="CODED-CONST"><SHORT-NAME>sid</SHORT-NAME><CODED-VALUE>16</CODED-VALUE>'
+                '<DIAG-CODED-TYPE BASE-DATA-TYPE="A_UINT32" xsi:type="STANDARD-LENGTH-TYPE"><BIT-LENGTH>8</BIT-LENGTH></DIAG-CODED-TYPE>'
+                '</PARAM></PARAMS></REQUEST></REQUESTS>')
+
+    def pref(cont, name, kind):
+        return f'<PARENT-REF ID-REF="{cont}.{name}" DOCREF="{cont}" DOCTYPE="CONTAINER" xsi:type="{kind}-REF"/>'
+
+    names = ["UDS", "KWP", "XYZ"]
+    n = 0
+    # BV inherits from the protocols in bv_par (container A defines UDS and KWP); EV inherits from BV; an unrelated
+    # container B defines protocols of the same names (and, in the second variant, is read first)
+    for bv_par, user, refs, b_first in itertools.product((("UDS",), ("UDS", "KWP"), ("KWP",)), ("BV", "EV"),
+                                                        (("UDS",), ("KWP",), ("XYZ",), ("UDS", "KWP")), (False, True)):
+        bv = ('<BASE-VARIANT ID="A.BV"><SHORT-NAME>BV</SHORT-NAME>' + (svc("A.BV", refs) if user == "BV" else "") +
+              "<PARENT-REFS>" + "".join(pref("A", p_, "PROTOCOL") for p_ in bv_par) + "</PARENT-REFS></BASE-VARIANT>")
+        ev = ('<ECU-VARIANT ID="A.EV"><SHORT-NAME>EV</SHORT-NAME>' + (svc("A.EV", refs) if user == "EV" else "") +
+              "<PARENT-REFS>" + pref("A", "BV", "BASE-VARIANT") + "</PARENT-REFS></ECU-VARIANT>")
+        doc_a = (f'<?xml version="1.0" encoding="UTF-8"?><ODX MODEL-VERSION="2.2.0" {xsi}><DIAG-LAYER-CONTAINER ID="A"><SHORT-NAME>A</SHORT-NAME>'
+                 f'<PROTOCOLS>{proto("A", "UDS")}{proto("A", "KWP")}</PROTOCOLS><BASE-VARIANTS>{bv}</BASE-VARIANTS>'
+                 f'<ECU-VARIANTS>{ev}</ECU-VARIANTS></DIAG-LAYER-CONTAINER></ODX>')
+        doc_b = (f'<?xml version="1.0" encoding="UTF-8"?><ODX MODEL-VERSION="2.2.0" {xsi}><DIAG-LAYER-CONTAINER ID="B"><SHORT-NAME>B</SHORT-NAME>'
+                 f'<PROTOCOLS>{proto("B", "KWP")}{proto("B", "UDS")}{proto("B", "XYZ")}</PROTOCOLS></DIAG-LAYER-CONTAINER></ODX>')
+        docs = ([doc_b, doc_a] if b_first else [doc_a, doc_b]) + [hc.cpsubset_doc(), hc.cpspec_doc()]
+        n += 1
+        ck.count(("protocol-snref", bv_par, user, refs, b_first))
+        rep = {"probe": "PROTOCOL-SNREF", "protocols inherited by BV": list(bv_par), "layer of the service": user,
+               "PROTOCOL-SNREFS": list(refs), "unrelated container read first": b_first}
+        db, e, _ = cc.guarded(lambda: hc.load_docs(docs), timeout=20)
+        resolvable = all(r in bv_par for r in refs)
+        if e is not None:
+            from odxtools.exceptions import OdxError
+            if resolvable or not isinstance(e, (OdxError, KeyError)):
+                ck.violation(f"PROTOCOL-SNREFs {list(refs)} of a service of {user} (BV inherits from {list(bv_par)}): loading raised "
+                             f"{type(e).__name__}: {e}", rep)
+                return
+            continue
+        if not resolvable:
+            ck.violation(f"PROTOCOL-SNREFs {list(refs)} of a service of {user} were accepted in strict mode although {user} only "
+                         f"inherits from the protocols {list(bv_par)}", rep)
+            return
+        lay = {(dl.odx_id.local_id): dl for dl in db.diag_layers}
+        s_ = [x for x in lay[f"A.{user}"].services if x.short_name == "svc"][0]
+        got = [pr.odx_id.local_id for pr in s_.protocols]
+        if got != [f"A.{r}" for r in refs]:
+            ck.violation(f"PROTOCOL-SNREFs {list(refs)} of the service of {user} are bound to {got}; the protocols which {user} "
+                         f"inherits from are {['A.' + x for x in bv_par]}", rep)
+            return
+    ck.coverage["protocol_snref_databases"] = n
+
+
 def corpus():
     """hand-written cases: the scoping situations of the property text"""
     out = []
@@ -1181,6 +1259,7 @@ def main(argv=None):
         ck.note_broken("model not built")
     if not ck.replay:
         shared_rows_probe(ck)
+        protocol_snref_probe(ck)
     ck.assumptions = [
         "local ids are unique inside one layer (ODX demands uniqueness per document; collisions across layers and containers are generated)",
         "a reference is judged by the oracle only where the property text determines the target: one candidate in the referenced / "
